@@ -85,13 +85,7 @@ func (rn *Renderer) Render(r *Report) *table.Table {
 }
 
 func (rn *Renderer) renderNode(tbl *table.Table, n *Node) {
-	var cmp compare.Compare[amounts.Key]
-	if rn.ShowCommodities {
-		cmp = compareAccountAndCommodities
-	} else {
-		cmp = compareAccount
-	}
-	idx := n.Amounts.Index(cmp)
+	idx := n.Amounts.Index(rn.compareKeys)
 	for i, k := range idx {
 		row := tbl.AddRow()
 		if i == 0 {
@@ -118,13 +112,23 @@ func (rn *Renderer) renderNode(tbl *table.Table, n *Node) {
 	tbl.AddSeparatorRow()
 }
 
-func compareAccount(k1, k2 amounts.Key) compare.Order {
-	return account.Compare(k1.Other, k2.Other)
-}
-
-func compareAccountAndCommodities(k1, k2 amounts.Key) compare.Order {
+// compareKeys is a total order on the keys of a node. The keys of a node
+// differ in the columns which are shown, so all of them must take part in
+// the comparison; otherwise, the order of the rows is the iteration order
+// of the map.
+func (rn *Renderer) compareKeys(k1, k2 amounts.Key) compare.Order {
 	if c := account.Compare(k1.Other, k2.Other); c != compare.Equal {
 		return c
 	}
-	return commodity.Compare(k1.Commodity, k2.Commodity)
+	if rn.ShowCommodities {
+		if c := commodity.Compare(k1.Commodity, k2.Commodity); c != compare.Equal {
+			return c
+		}
+	}
+	if rn.ShowSource {
+		if c := account.Compare(k1.Account, k2.Account); c != compare.Equal {
+			return c
+		}
+	}
+	return compare.Ordered(k1.Description, k2.Description)
 }
